@@ -235,6 +235,86 @@ func (p *pkgInfo) mapLockDiscipline() (ok bool, methods int) {
 	return ok, methods
 }
 
+// mapLockReentry reports whether some subscriptionMap method calls, while it holds the map's
+// RWMutex (it calls Lock or RLock on its receiver), another subscriptionMap method that acquires
+// that mutex itself, directly or through further methods.  sync.RWMutex is not reentrant: a
+// recursive read lock deadlocks as soon as a writer queues up between the two acquisitions.
+func (p *pkgInfo) mapLockReentry() (reenters bool) {
+	type info struct {
+		locks bool
+		calls []string
+	}
+	ms := map[string]*info{}
+	for _, f := range p.files {
+		for _, d := range f.Decls {
+			fd, isFn := d.(*ast.FuncDecl)
+			if !isFn || fd.Recv == nil || len(fd.Recv.List) != 1 || fd.Body == nil {
+				continue
+			}
+			star, isStar := fd.Recv.List[0].Type.(*ast.StarExpr)
+			if !isStar {
+				continue
+			}
+			if id, isID := star.X.(*ast.Ident); !isID || id.Name != "subscriptionMap" {
+				continue
+			}
+			recv := ""
+			if len(fd.Recv.List[0].Names) == 1 {
+				recv = fd.Recv.List[0].Names[0].Name
+			}
+			in := &info{}
+			ast.Inspect(fd.Body, func(n ast.Node) bool {
+				if x, ok := n.(*ast.CallExpr); ok {
+					if se, ok := x.Fun.(*ast.SelectorExpr); ok {
+						if id, ok := se.X.(*ast.Ident); ok && id.Name == recv && recv != "" {
+							switch se.Sel.Name {
+							case "Lock", "RLock":
+								in.locks = true
+							case "Unlock", "RUnlock":
+							default:
+								in.calls = append(in.calls, se.Sel.Name)
+							}
+						}
+					}
+				}
+				return true
+			})
+			ms[fd.Name.Name] = in
+		}
+	}
+	// acquires[m]: m takes the lock itself or through a method it calls
+	acquires := map[string]bool{}
+	for changed := true; changed; {
+		changed = false
+		for name, in := range ms {
+			if acquires[name] {
+				continue
+			}
+			a := in.locks
+			for _, c := range in.calls {
+				if acquires[c] {
+					a = true
+				}
+			}
+			if a {
+				acquires[name] = true
+				changed = true
+			}
+		}
+	}
+	for _, in := range ms {
+		if !in.locks {
+			continue
+		}
+		for _, c := range in.calls {
+			if _, isMethod := ms[c]; isMethod && acquires[c] {
+				return true
+			}
+		}
+	}
+	return false
+}
+
 func main() {
 	repo := flag.String("repo", "/repo", "repository root")
 	out := flag.String("out", "", "output .v file")
@@ -341,6 +421,8 @@ func main() {
 	disc, nm := gql.mapLockDiscipline()
 	w("\n(* graphql/subscription.go: the %d methods of subscriptionMap that touch the map hold its lock\n   (the write lock when they write) *)\n", nm)
 	w("Definition ws_map_methods_hold_the_lock : bool := %s.\n", boolV(disc && nm >= 5))
+	w("(* ... and none of them calls, while holding it, another method that acquires it (sync.RWMutex is\n   not reentrant: a recursive RLock deadlocks once a writer waits in between) *)\n")
+	w("Definition ws_map_methods_do_not_reenter_the_lock : bool := %s.\n", boolV(!gql.mapLockReentry()))
 
 	if *out == "" {
 		fmt.Print(sb.String())
